@@ -30,6 +30,8 @@ ACT_BOUND = 6
 
 
 # --------------------------------------------------------------------------- generators
+MAXLEN = [4000]    # longest hostile TLV length (65535 in the thorough tier: such a case costs seconds in the list based model)
+
 def rbytes(rng, n):
     return bytes(rng.randrange(256) for _ in range(n))
 
@@ -60,15 +62,15 @@ def gen_tlvs(rng, room):
     k = rng.random()
     if k < 0.55:      # NDEF TLV that fits
         ln = rng.choice([0, 1, 5, max(0, left - 2), max(0, left - 3), rng.randrange(0, max(1, left))])
-        if ln >= 255 or rng.random() < 0.08:
-            out += bytes([3, 255]) + struct.pack(">H", ln)
+        if ln >= 255 or rng.random() < 0.2:
+            out += bytes([3, 255]) + struct.pack(">H", ln)      # 3-byte length field also for short messages
         else:
             out += bytes([3, ln])
         out += rbytes(rng, ln)
         if rng.random() < 0.7:
             out += b"\xFE"
     elif k < 0.85:    # NDEF TLV beyond the area
-        ln = rng.choice([left - 1, left, left + 1, left + 14, 60, 254, 300, 2040, 65535])
+        ln = rng.choice([left - 1, left, left + 1, left + 14, 60, 254, 300, 2040, MAXLEN[0]])
         ln = max(0, ln)
         if ln >= 255 or rng.random() < 0.1:
             out += bytes([3, 255]) + struct.pack(">H", ln & 0xFFFF)
@@ -338,6 +340,7 @@ def run(ck):
     rng = ck.rng
     R = Runner(ck)
     T = ck.thorough
+    MAXLEN[0] = 65535 if T else 4000
     gens = [("t2", gen_t2, 2 * BOUND["t2"] + 10), ("t1", gen_t1, 200), ("t3", gen_t3, 2 * BOUND["t3"] + 10), ("t4", gen_t4, 3000)]
     n_img = 900 if T else 170
     for kind, gen, budget in gens:
@@ -419,8 +422,11 @@ def corpus(R):
         R.case(rsp, {"kind": name.split(":")[0], "witness": name}, budget, **kw)
 
     c(A.T2Adv(t2img(6, b"\x03\x3c" + bytes(range(46)))), "t2:F15 length 60 in a 48 byte area, tag rolls over")
-    c(A.T2Adv(t2img(6, b"\x03\xff\xff\xff" + bytes(44))), "t2:length 65535, tag rolls over", budget=20000)
+    c(A.T2Adv(t2img(6, b"\x03\xff\x17\x70" + bytes(44))), "t2:length 6000, tag rolls over", budget=20000)
     c(A.T2Adv(t2img(6, bytes(47) + b"\x03")), "t2:NDEF TLV type byte is the last byte of the area (capacity -1)")
+    c(A.T2Adv(t2img(6, b"\x03\xff\x00\x2e" + bytes(range(44)))), "t2:3-byte length field, length 46 = capacity, value ends 2 bytes behind the area")
+    c(A.T2Adv(t2img(6, b"\x03\xff\x00\x2c" + bytes(range(44)))), "t2:3-byte length field, length 44 fits exactly")
+    c(A.T1Adv(b"\x11\x48", t1img(0x0E, b"\x03\xff\x00\x5a" + bytes(range(88)))), "t1:3-byte length field, length 90 = capacity")
     c(A.T2Adv(t2img(6, b"\x01\x03\xf0\x00\x0f" + b"\x03\x00")), "t2:lock TLV pointing at page 15 * 2^15")
     c(A.T2Adv(t2img(255, b""), sectors="no"), "t2:2040 byte area of NULL TLVs, no sector select")
     c(A.T1Adv(b"\x11\x48", t1img(0x0E, b"\x01\x00\x03\x01a\xfe")), "t1:F12 lock control TLV with L=0")
